@@ -1,3 +1,76 @@
-(* placeholder until Model/Compart.v lands *)
-From EpyV Require Import Model.Kernel.
-Definition check_case (x : bool) : bool := x.
+(* Tie B for whole runs of the shipped compartmented models (C07, C08, and the shipped-model
+   parts of C05, C12): Model/Compart.v over Model/Kernel.v against the implementation. *)
+From Coq Require Import List ZArith QArith Qabs Bool Arith.
+From EpyV Require Import Lib.Prelude Model.Kernel Model.Loci Model.Compart Tie.Kernel.
+Import ListNotations.
+Open Scope Q_scope.
+
+Record case_t := {
+  c_model : cmodel; c_nodes : list Z; c_edges : list (Z * Z); c_init : list (Z * Z);
+  c_maxtime : Q; c_monitor : option Q; c_sync : bool;
+  c_rands : list Q; c_lns : list Q; c_draws : list nat;
+  o_handlers : list (nat * Q * Kernel.elem * bool);       (* event-function entries: program, t, element, member of its locus *)
+  o_taps : list (Q * nat * bool * Kernel.elem);           (* event tap: t, process, posted?, element *)
+  o_final_comp : list (Z * Z);
+  o_final_loci : list (list Kernel.elem);
+  o_occ : list (Z * Z * Q); o_hit : list (Z * Q);
+  o_counts : list (Z * nat);                              (* results(): compartment -> size *)
+  o_observations : list (Q * list nat);                   (* Monitor: time, size of every locus *)
+  o_time : Q; o_events : nat; o_steps : nat; o_ok : bool }.
+
+Definition model_run (c : case_t) : result cworld :=
+  let tb := mk_table (c_model c) (c_nodes c) (c_edges c) (c_init c) (c_maxtime c) (c_monitor c) in
+  if c_sync c then sync_run tb 4000 4000 (c_rands c) (c_draws c)
+  else stoch_run tb 4000 4000 (c_rands c) (c_lns c) (c_draws c).
+
+Definition handlers_of (o : list obs) : list (nat * Q * Kernel.elem * bool) :=
+  flat_map (fun x => match x with OHandler k t _ e (Some m) => [(k, t, e, m)] | _ => [] end) o.
+Definition taps_of (o : list obs) : list (Q * nat * bool * Kernel.elem) :=
+  flat_map (fun x => match x with
+                     | OTap t p (NPost _) e => [(t, p, true, e)]
+                     | OTap t p (NEv _ _) e => [(t, p, false, e)]
+                     | _ => [] end) o.
+Definition observations_of (o : list obs) : list (Q * list nat) :=
+  flat_map (fun x => match x with OObserve t l => [(t, l)] | _ => [] end) o.
+
+Definition h_eqb (a b : nat * Q * Kernel.elem * bool) : bool :=
+  let '(k, t, e, m) := a in let '(k', t', e', m') := b in
+  Nat.eqb k k' && qapprox t t' && Kernel.elem_eqb e e' && Bool.eqb m m'.
+Definition t_eqb (a b : Q * nat * bool * Kernel.elem) : bool :=
+  let '(t, p, x, e) := a in let '(t', p', x', e') := b in
+  qapprox t t' && Nat.eqb p p' && Bool.eqb x x' && Kernel.elem_eqb e e'.
+Definition o_eqb (a b : Q * list nat) : bool := qapprox (fst a) (fst b) && list_eqb Nat.eqb (snd a) (snd b).
+Definition occ_eqb (a b : Z * Z * Q) : bool := undirected_eqb (fst a) (fst b) && qapprox (snd a) (snd b).
+Definition hit_eqb (a b : Z * Q) : bool := Z.eqb (fst a) (fst b) && qapprox (snd a) (snd b).
+
+Definition check_case (c : case_t) : bool :=
+  let r := model_run c in
+  let w := world (r_final r) in
+  o_ok c && negb (r_stuck r)
+  && list_eqb h_eqb (handlers_of (r_out r)) (o_handlers c)
+  && list_eqb t_eqb (taps_of (r_out r)) (o_taps c)
+  && list_eqb o_eqb (observations_of (r_out r)) (o_observations c)
+  && forallb (fun nc => opt_eqb Z.eqb (getc (cw_st w) (fst nc)) (Some (snd nc))) (o_final_comp c)
+  && Nat.eqb (length (o_final_comp c)) (length (st_nodes (cw_st w)))
+  && list_eqb (list_eqb Kernel.elem_eqb) (loci (r_final r)) (o_final_loci c)
+  && list_eqb (list_eqb Kernel.elem_eqb) (map ksort (st_loci (cw_st w))) (o_final_loci c)
+  && set_eqb occ_eqb (cw_occ w) (o_occ c) && Nat.eqb (length (cw_occ w)) (length (o_occ c))
+  && set_eqb hit_eqb (cw_hit w) (o_hit c) && Nat.eqb (length (cw_hit w)) (length (o_hit c))
+  && forallb (fun cn => Nat.eqb (count_in (cw_st w) (fst cn)) (snd cn)) (o_counts c)
+  && qapprox (r_time r) (o_time c) && Nat.eqb (r_events r) (o_events c)
+  && (negb (c_sync c) || Nat.eqb (r_steps r) (o_steps c)).
+
+(* for debugging: which conjunct fails *)
+Definition diagnose (c : case_t) : list bool :=
+  let r := model_run c in
+  let w := world (r_final r) in
+  [ o_ok c; negb (r_stuck r);
+    list_eqb h_eqb (handlers_of (r_out r)) (o_handlers c);
+    list_eqb t_eqb (taps_of (r_out r)) (o_taps c);
+    list_eqb o_eqb (observations_of (r_out r)) (o_observations c);
+    forallb (fun nc => opt_eqb Z.eqb (getc (cw_st w) (fst nc)) (Some (snd nc))) (o_final_comp c);
+    list_eqb (list_eqb Kernel.elem_eqb) (loci (r_final r)) (o_final_loci c);
+    list_eqb (list_eqb Kernel.elem_eqb) (map ksort (st_loci (cw_st w))) (o_final_loci c);
+    set_eqb occ_eqb (cw_occ w) (o_occ c); set_eqb hit_eqb (cw_hit w) (o_hit c);
+    forallb (fun cn => Nat.eqb (count_in (cw_st w) (fst cn)) (snd cn)) (o_counts c);
+    qapprox (r_time r) (o_time c); Nat.eqb (r_events r) (o_events c) ].
